@@ -960,7 +960,8 @@ VSfpack(int32 vsid, int packtype, const char *fields_in_buf, void *buf, int bufs
         }
 
     /* check bufsz */
-    if (bufsz < b_rec_size * n_records)
+    /* (the product is formed in 64 bits: b_rec_size * n_records can exceed an int) */
+    if ((long long)bufsz < (long long)b_rec_size * (long long)n_records)
         HGOTO_ERROR(DFE_NOTENOUGH, FAIL);
     if (fields != NULL) { /* convert field names into tokens. */
         if (scanattrs(fields, &ac, &av) == FAIL)
